@@ -43,14 +43,16 @@ func realKeyHash(name string, pub ed25519.PublicKey) uint32 {
 
 var noteKeys = func() map[int]*noteKey {
 	m := map[int]*noteKey{}
-	for id, name := range map[int]string{1: "A", 2: "B", 3: "A", 4: "A"} {
+	for id, name := range map[int]string{1: "A", 2: "B", 3: "A", 4: "A", 5: "A", 6: "A"} {
 		seed := sha256.Sum256([]byte(fmt.Sprintf("note key %d", id)))
 		priv := ed25519.NewKeyFromSeed(seed[:])
 		k := &noteKey{id: id, name: name, priv: priv, pub: priv.Public().(ed25519.PublicKey)}
 		k.hash = realKeyHash(name, k.pub)
 		m[id] = k
 	}
-	m[4].hash = m[1].hash // another key under K1's name and key hash
+	m[4].hash = m[1].hash // other keys under K1's name and key hash
+	m[5].hash = m[1].hash
+	m[6].hash = m[1].hash
 	return m
 }()
 
@@ -135,6 +137,8 @@ type noteMsg struct {
 var badTextForms = []string{"bad\x01line %d", "bad\u00e9\x01line %d", "bad \u4e2d\x1f %d", "bad\tline %d", "bad line %d\r", "bad\xffline %d", "bad\u00e9\xffline %d",
 	"bad line %d \xe4\xb8", "\x00bad line %d", "bad\u00e9\tline %d", "bad \U0001F600\x02 %d"}
 
+const longSigForm = 1000
+
 func lineText(l noteLine) string { return lineTextF(l, 0) }
 
 func lineTextF(l noteLine, form int) string {
@@ -173,6 +177,11 @@ func lineTextF(l noteLine, form int) string {
 		} else {
 			s := sha256.Sum256(append([]byte("junk signature "), l.UID...))
 			sig = append(s[:], s[:]...)
+			if form >= longSigForm {
+				// the same junk, 60000 bytes of it: a signature line of 80 KB (signature schemes other than Ed25519
+				// may have signatures of any length; the message stays far below the documented 1 MB limit)
+				sig = bytes.Repeat(s[:], 1875)
+			}
 		}
 		b64 = base64.StdEncoding.EncodeToString(append(hbuf[:], sig...))
 	}
@@ -367,36 +376,55 @@ func (w *noteWorld) Check(c *core.Case) ([]core.Violation, bool) {
 		Unsigs [][]any    `json:"unsigs"`
 	}
 	json.Unmarshal(c.Exp, &exp)
+	vs := judgeOpen(c, in.Msg, in.Known.Keys, in.Known.Liar, 0, exp.Kind, exp.Text, exp.Sigs, exp.Unsigs)
+	if len(vs) > 0 {
+		return vs, in.Mutated
+	}
+	// other concrete spellings of what the specification does not distinguish have the same outcome: a forbidden
+	// character in a text line (eleven spellings), a signature by an unknown key of any length (80 KB line)
+	hasBadTxt, hasJunk := false, false
+	for _, l := range in.Msg.Lines {
+		hasBadTxt = hasBadTxt || (l.K == "txt" && l.Bad)
+		if _, ok := noteKeys[l.Key]; l.K == "sig" && !ok && l.Form != "short" && l.Form != "notb64" {
+			hasJunk = true
+		}
+	}
+	var forms []int
+	for f := 1; hasBadTxt && f < len(badTextForms); f++ {
+		forms = append(forms, f)
+	}
+	if hasJunk {
+		forms = append(forms, longSigForm)
+	}
+	for _, f := range forms {
+		if v2 := judgeOpen(c, in.Msg, in.Known.Keys, in.Known.Liar, f, exp.Kind, exp.Text, exp.Sigs, exp.Unsigs); len(v2) > 0 {
+			return v2[:1], in.Mutated
+		}
+	}
+	return nil, in.Mutated
+}
+
+func judgeOpen(c *core.Case, msg noteMsg, keys []int, liar bool, form int, expKind string, expText []noteLine, expSigs, expUnsigs [][]any) []core.Violation {
 	var calls []verifyCall
 	var mu sync.Mutex
-	known := buildVerifiers(in.Known.Keys, in.Known.Liar, &calls, &mu)
-	data := msgBytes(in.Msg)
+	known := buildVerifiers(keys, liar, &calls, &mu)
+	data := msgBytesF(msg, form)
 	n, err := note.Open(data, known)
 	kind := classifyNoteErr(err)
 	var vs []core.Violation
-	desc := fmt.Sprintf("Open(%q) with known keys %v liar=%v", data, in.Known.Keys, in.Known.Liar)
+	shown := data
+	if len(shown) > 600 {
+		shown = append(append([]byte{}, shown[:600]...), fmt.Sprintf("...(%d bytes)", len(data))...)
+	}
+	desc := fmt.Sprintf("Open(%q) with known keys %v liar=%v", shown, keys, liar)
 	if err == nil {
 		if msg := checkOpened(n, calls); msg != "" {
 			vs = append(vs, core.Violation{Sig: "open:unverified-accepted", What: msg + "; " + desc, Case: c})
 		}
 	}
-	if kind != exp.Kind {
-		vs = append(vs, core.Violation{Sig: "open:outcome:" + exp.Kind + "->" + kind, What: fmt.Sprintf("%s: outcome %s (%v), the documented behaviour is %s", desc, kind, err, exp.Kind), Case: c})
-		return vs, in.Mutated
-	}
-	// the other spellings of a forbidden character in a text line have the same outcome
-	hasBadTxt := false
-	for _, l := range in.Msg.Lines {
-		hasBadTxt = hasBadTxt || (l.K == "txt" && l.Bad)
-	}
-	for f := 1; hasBadTxt && f < len(badTextForms); f++ {
-		d2 := msgBytesF(in.Msg, f)
-		var calls2 []verifyCall
-		_, err2 := note.Open(d2, buildVerifiers(in.Known.Keys, in.Known.Liar, &calls2, &mu))
-		if k2 := classifyNoteErr(err2); k2 != exp.Kind {
-			vs = append(vs, core.Violation{Sig: "open:outcome:" + exp.Kind + "->" + k2, What: fmt.Sprintf("Open(%q) with known keys %v liar=%v: outcome %s (%v), the documented behaviour is %s", d2, in.Known.Keys, in.Known.Liar, k2, err2, exp.Kind), Case: c})
-			break
-		}
+	if kind != expKind {
+		vs = append(vs, core.Violation{Sig: "open:outcome:" + expKind + "->" + kind, What: fmt.Sprintf("%s: outcome %s (%v), the documented behaviour is %s", desc, kind, err, expKind), Case: c})
+		return vs
 	}
 	var got *note.Note
 	if err == nil {
@@ -405,7 +433,7 @@ func (w *noteWorld) Check(c *core.Case) ([]core.Violation, bool) {
 		got = u.Note
 	}
 	if got != nil {
-		if want := textOf(exp.Text); got.Text != want {
+		if want := textOfF(expText, form); got.Text != want {
 			vs = append(vs, core.Violation{Sig: "open:text", What: fmt.Sprintf("%s: returned text %q, want %q", desc, got.Text, want), Case: c})
 		}
 		cmp := func(what string, have []note.Signature, want [][]any) {
@@ -421,10 +449,10 @@ func (w *noteWorld) Check(c *core.Case) ([]core.Violation, bool) {
 				vs = append(vs, core.Violation{Sig: "open:partition-" + what, What: fmt.Sprintf("%s: %s signatures %v, documented partition %v", desc, what, have, want), Case: c})
 			}
 		}
-		cmp("verified", got.Sigs, exp.Sigs)
-		cmp("unverified", got.UnverifiedSigs, exp.Unsigs)
+		cmp("verified", got.Sigs, expSigs)
+		cmp("unverified", got.UnverifiedSigs, expUnsigs)
 	}
-	return vs, in.Mutated
+	return vs
 }
 
 // Record: byte-level mutation sweep over signed messages; each Open is logged with the message abstracted
